@@ -499,3 +499,75 @@ pub proof fn lemma_dealloc_top(a: AV, s0: SV, s1: SV, offset: int, size: int)
     assert(word(s0, cell_of(s0.list, k)) == enc(size_of_cell(s0.list, k), next_of(s0.list, k)));
   }
 }
+
+// ---- sync flavour: two-step removal (mark the node word, then unlink) -----------------------------------------
+
+/// overwriting the word of list node i leaves every other list cell's word unchanged
+pub proof fn lemma_mark_frame(a: AV, s0: SV, s1: SV, i: int, mark: u64)
+  requires wf_shape(a, s0), 0 <= i < s0.list.len(), s1 == store_view(s0, CellRef::Node(s0.list[i].0), mark)
+  ensures
+    forall|k: int| -1 <= k < s0.list.len() && k != i ==> word(s1, #[trigger] cell_of(s0.list, k)) == word(s0, cell_of(s0.list, k)),
+    frame_ok(s0.list, s0.bytes, s1.bytes, 0, 0), same_hdr(s0, s1), s1.list == s0.list,
+{
+  let l = s0.list; let o = l[i].0 as int;
+  assert(node_ok(a, s0, l[i]));
+  lemma_word_written(s0.bytes, o, mark);
+  lemma_headers_apart(l, i, o);
+  lemma_words_preserved_except(a, s0, s1, o, o + 8, i);
+  assert forall|b: int| 0 <= b < s0.bytes.len() implies s1.bytes[b] == s0.bytes[b] || 0 <= b < 0 || #[trigger] in_list(l, b) by {
+    if o <= b < o + 8 { assert(in_node(l[i], b)); }
+  }
+}
+
+pub proof fn lemma_remove_bytes2(a: AV, s0: SV, s1: SV, s2: SV, i: int, mark: u64)
+  requires
+    wf_shape(a, s0), 0 <= i < s0.list.len(),
+    s1 == store_view(s0, CellRef::Node(s0.list[i].0), mark),
+    s2 == (SV { list: s0.list.remove(i), ..store_view(s1, cell_of(s0.list, i - 1), enc(size_of_cell(s0.list, i - 1), next_of(s0.list, i))) }),
+  ensures
+    rem_pre(a, s0, s2, i),
+    frame_ok(s0.list, s0.bytes, s2.bytes, 0, 0),
+    same_hdr(s0, s2),
+{
+  let l = s0.list;
+  let v = enc(size_of_cell(l, i - 1), next_of(l, i));
+  lemma_mark_frame(a, s0, s1, i, mark);
+  assert(nodes_ok(a, s1)) by { assert forall|k: int| 0 <= k < s1.list.len() implies node_ok(a, s1, #[trigger] s1.list[k]) by { assert(node_ok(a, s0, l[k])); } }
+  if i >= 1 {
+    let o = l[i - 1].0 as int;
+    assert(node_ok(a, s0, l[i - 1]));
+    lemma_word_written(s1.bytes, o, v);
+    lemma_headers_apart(l, i - 1, o);
+    lemma_words_preserved_except(a, s1, s2, o, o + 8, i - 1);
+    assert forall|k: int| -1 <= k < l.len() && k != i - 1 && k != i implies word(s2, #[trigger] cell_of(l, k)) == word(s0, cell_of(l, k)) by {
+      assert(word(s1, cell_of(l, k)) == word(s0, cell_of(l, k)));
+      assert(word(s2, cell_of(s1.list, k)) == word(s1, cell_of(s1.list, k)));
+    }
+    assert forall|b: int| 0 <= b < s0.bytes.len() implies s2.bytes[b] == s0.bytes[b] || 0 <= b < 0 || #[trigger] in_list(l, b) by {
+      if o <= b < o + 8 { assert(in_node(l[i - 1], b)); }
+      if l[i].0 as int <= b < l[i].0 as int + 8 { assert(node_ok(a, s0, l[i])); assert(in_node(l[i], b)); }
+    }
+  } else {
+    assert forall|k: int| -1 <= k < l.len() && k != i - 1 && k != i implies word(s2, #[trigger] cell_of(l, k)) == word(s0, cell_of(l, k)) by {
+      assert(word(s1, cell_of(l, k)) == word(s0, cell_of(l, k)));
+    }
+  }
+}
+
+// ---- discard_freelist loop -------------------------------------------------------------------------------------------
+
+pub open spec fn discard_bytes_ok(s_old: SV, s: SV) -> bool {
+  frame_ok(s_old.list, s_old.bytes, s.bytes, 0, 0) && forall|b: int| #[trigger] in_list(s.list, b) ==> in_list(s_old.list, b)
+}
+pub proof fn lemma_discard_step(s_old: SV, s0: SV, s1: SV)
+  requires discard_bytes_ok(s_old, s0), frame_ok(s0.list, s0.bytes, s1.bytes, 0, 0), s0.list.len() > 0, s1.list == s0.list.remove(0)
+  ensures discard_bytes_ok(s_old, s1)
+{
+  lemma_in_list_remove(s0.list, 0);
+  assert forall|b: int| 0 <= b < s_old.bytes.len() implies s1.bytes[b] == s_old.bytes[b] || 0 <= b < 0 || #[trigger] in_list(s_old.list, b) by {
+    if s1.bytes[b] != s0.bytes[b] { assert(in_list(s0.list, b)); }
+  }
+}
+pub proof fn lemma_discard_init(s: SV)
+  ensures discard_bytes_ok(s, s)
+{}
